@@ -150,6 +150,8 @@ CHECKS["C18"] = _e1_entry("Finalizers guard teardown.", "c18-rollout-finalizer",
     "the Rollout was deleted after step >= 1.")
 CHECKS["C18"]["level"] = "fault_enumeration"
 CHECKS["C18"]["engine"] = "E1+E2"
+CHECKS["C18"]["technique"] = (CHECKS["C18"]["technique"] + "; generated fault injection inside the histories (the N-th controller call, or the N-th call of a drawn kind/verb, fails; lost responses, conflicts, "
+                              "crash after a write) with residue oracles at the writes that remove the Rollout / BatchRelease finalizers; plus a component-level rapid state machine on the real TrafficRouting reconciler (ticking grace clock, injected API errors)")
 CHECKS["C18"]["subchecks"].append({"name": "c18-trafficrouting-finalizer", "pkg": "p18t", "test": "TestC18TrafficRoutingFinalizer", "quick": rp(16000, 8, timeout=600, shrinktime="30s"), "thorough": rp(320000, 16, timeout=3000, shrinktime="120s")})
 CHECKS["C18"]["rule"] += (" TrafficRouting (c18-trafficrouting-finalizer, component level): the real TrafficRoutingReconciler on the controller-runtime fake client (objects with finalizers stay until the last one is removed), "
                           "grace 0 / 1 / 3 s with the grace package's clock ticked through the verif hook; generated histories of reconcile / tick / a Rollout starts or stops using it (progressing finalizer) / delete / 'the N-th API call from now fails'; "
@@ -159,6 +161,8 @@ CHECKS["C18"]["assumptions"] = list(CHECKS["C18"]["assumptions"]) + ["c18-traffi
 # C01: arithmetic (parith) + closed loop
 CHECKS["C01"] = dict(_parith["MAIN"]["C01"])
 CHECKS["C01"]["engine"] = "E3+E1"
+CHECKS["C01"]["technique"] = (CHECKS["C01"]["technique"] + "; plus stateful property-based testing (rapid): the real BatchRelease controller under generated plan / partition / scale histories (knob writes judged against a reference), "
+                              "and the closed-loop simulator (exposure of every knob write bounded by the current step, after every API write)")
 CHECKS["C01"]["subchecks"] = list(_parith["MAIN"]["C01"]["subchecks"]) + [_e1("c01-closed-loop", "TestC01ClosedLoop")]
 CHECKS["C01"]["assumptions"] = list(_parith["MAIN"]["C01"]["assumptions"]) + E1_ASSUMPTIONS
 CHECKS["C01"]["rule"] += (" Closed loop (c01-closed-loop): shared E1 generator with scale / plan-edit / jump weighted up and occasional 100-130 replicas; at every BatchRelease spec write by the Rollout controller "
@@ -209,7 +213,7 @@ CHECKS["C01"]["engine"] = "E3+E2+E1"
 
 CHECKS["C19"] = {
     "level": "exploration", "engine": "E1+E2",
-    "technique": "stateful property-based testing (rapid) of several rollouts interleaved on one controller process (ownership + differential oracle) and a 4-worker concurrent run under the Go race detector",
+    "technique": "stateful property-based testing (rapid) of several rollouts interleaved on one controller process (ownership + differential oracle) and a 4-worker concurrent run under the Go race detector; metamorphic non-interference testing (rapid) of trafficrouting.Manager for two tenants with identical object names and running grace timers",
     "level_text": ("Isolation decided by generated search. (a) Deterministic interleaving: 2-3 generated rollouts (same and different namespaces, names that are prefixes of each other "
                    "demo / demo-a, same name in two namespaces, hence identically named Services / Ingresses / routes across namespaces) are driven on ONE simulated cluster and ONE set of "
                    "reconcilers by a generated interleaving of reconciles, environment steps and per-rollout user actions; oracles: every write issued while reconciling key K touches only "
